@@ -152,7 +152,8 @@ example : seemsGlobalUri "localhost:873".toList = some true := by decide
 example : seemsGlobalUri "host:".toList = some true := by decide
 example : seemsGlobalUri "::1".toList = some false := by decide
 example : seemsGlobalUri "example.org".toList = some true := by decide
-example : (reviewed.filter fun r => r.2.2.2.1 matches .finding _).length = 2 := by decide +kernel
+-- (F-C16-5/F-C16-6, the two rows this census classified `finding`, are repaired: fix 4d7887d3)
+example : (reviewed.filter fun r => r.2.2.2.1 matches .finding _).length = 0 := by decide +kernel
 example : seemsGlobalUri "é:".toList = some true := by decide
 example : ipAddrOk "1:2:3:4:5:6:7.8.9.10".toList = true := by decide
 example : ipAddrOk "1::7.8.9.10".toList = true := by decide
